@@ -1,6 +1,7 @@
 """C09 — signature hashes equal the legacy, BIP143 and BIP341 definitions (DESIGN §3 C09)."""
 from __future__ import annotations
 
+import hashlib
 import json
 import os
 from io import BytesIO
@@ -573,6 +574,190 @@ def _o_bip_vector(w):
     return r == ("ok", bytes.fromhex(w["exp"])), f"{w['name']}: from_tx -> {r}, the BIP says {w['exp']}"
 
 
+# ------------------------------------------------------------------ reference dispatch (BIP16 / BIP141 / BIP143 / BIP341 texts)
+# Written from the BIPs with hashlib alone: no btclib parser, predicate or hash is called to DECIDE anything here.
+# The oracles below call the real `from_tx` and the real single-algorithm function the reference names, so a
+# wrong dispatch decision of from_tx (which algorithm, which script code, which annex / extension) is exhibited
+# as a concrete failing input even when model and code agree with each other.
+def _sha256(b: bytes) -> bytes:
+    return hashlib.sha256(b).digest()
+
+
+def _ref_hash160(b: bytes) -> bytes:
+    return hashlib.new("ripemd160", _sha256(b)).digest()
+
+
+def _ref_tagged(tag: bytes, msg: bytes) -> bytes:
+    t = _sha256(tag)
+    return _sha256(t + t + msg)
+
+
+def _ref_compact(n: int) -> bytes:
+    if n < 253:
+        return bytes([n])
+    if n <= 0xFFFF:
+        return b"\xfd" + n.to_bytes(2, "little")
+    if n <= 0xFFFFFFFF:
+        return b"\xfe" + n.to_bytes(4, "little")
+    return b"\xff" + n.to_bytes(8, "little")
+
+
+def ref_annex_and_ext(stack):
+    """BIP341: "If there are at least two witness elements, and the first byte of the last element is 0x50, this
+    last element is called annex and is removed from the witness stack"; "if there is exactly one element left
+    [...] key path spending"; "at least two witness elements left, script path spending": the last is the control
+    block c, the second-to-last the script s, leaf version c[0] & 0xfe, tapleaf hash = hash_TapLeaf(v || compact_size(s) || s);
+    BIP342 extension: tapleaf_hash || key_version 0 || codesep_pos 0xffffffff.  None = nothing to sign (no element)."""
+    stack = list(stack)
+    if not stack:
+        return None
+    annex = b""
+    if len(stack) >= 2 and stack[-1][:1] == b"\x50":
+        annex = stack.pop()
+    if len(stack) == 1:
+        return annex, b""
+    cb, script = stack[-1], stack[-2]
+    if not cb:
+        return None
+    leaf = _ref_tagged(b"TapLeaf", bytes([cb[0] & 0xFE]) + _ref_compact(len(script)) + script)
+    return annex, leaf + b"\x00" + b"\xff\xff\xff\xff"
+
+
+def ref_ops(script: bytes):
+    """Core's GetOp walk: [(opcode, pushed data or None, end offset)], and whether the whole script was readable."""
+    out, i, n = [], 0, len(script)
+    while i < n:
+        op = script[i]
+        i += 1
+        data = None
+        if 1 <= op <= 78:
+            if op <= 75:
+                size = op
+            else:
+                w = {76: 1, 77: 2, 78: 4}[op]
+                if n - i < w:
+                    return out, False
+                size = int.from_bytes(script[i:i + w], "little")
+                i += w
+            if n - i < size:
+                return out, False
+            data = script[i:i + size]
+            i += size
+        out.append((op, data, i))
+    return out, True
+
+
+def ref_after_codesep(script: bytes, k: int):
+    """The script's bytes after the k-th OP_CODESEPARATOR operation (k = 0: the whole script); None: there is none."""
+    if k < 0:
+        return None
+    if k == 0:
+        return script
+    found = 0
+    for op, _, end in ref_ops(script)[0]:
+        if op == 0xAB:
+            found += 1
+            if found == k:
+                return script[end:]
+    return None
+
+
+def _is(spk: bytes, kind: str) -> bool:
+    if kind == "p2sh":
+        return len(spk) == 23 and spk[:2] == b"\xa9\x14" and spk[22:] == b"\x87"
+    if kind == "p2wpkh":
+        return len(spk) == 22 and spk[:2] == b"\x00\x14"
+    if kind == "p2wsh":
+        return len(spk) == 34 and spk[:2] == b"\x00\x20"
+    return len(spk) == 34 and spk[:2] == b"\x51\x20"   # p2tr
+
+
+def ref_dispatch(t, outs, i, codesep):
+    """What from_tx must do for input `i` (in range, one prevout per input): ("taproot", annex, ext) |
+    ("segwit", script_code, amount) | ("legacy", script_code) | ("refuse", why)."""
+    amount, spk = outs[i]
+    _, _, script_sig, _, stack = t["vin"][i]
+    if _is(spk, "p2tr"):
+        if codesep:
+            return ("refuse", "codeseparator index for a taproot input")
+        ae = ref_annex_and_ext(stack)
+        return ("refuse", "empty stack / empty control block") if ae is None else ("taproot", ae[0], ae[1])
+    script = spk
+    if _is(spk, "p2sh"):
+        # BIP16: the redeem script is the data of the LAST operation of the scriptSig, which must be a push
+        ops, whole = ref_ops(script_sig)
+        if not whole or not ops or ops[-1][1] is None:
+            return ("refuse", "no redeem script push at the end of the scriptSig")
+        script = ops[-1][1]
+        if _ref_hash160(script) != spk[2:22]:
+            return ("refuse", "redeem script hash")
+    if _is(script, "p2wpkh"):
+        if codesep:
+            return ("refuse", "codeseparator index for p2wpkh")
+        # BIP143: "For P2WPKH witness program, the scriptCode is 0x1976a914{20-byte-pubkey-hash}88ac"
+        return ("segwit", b"\x76\xa9\x14" + script[2:] + b"\x88\xac", amount)
+    if _is(script, "p2wsh"):
+        if not stack:
+            return ("refuse", "empty p2wsh stack")
+        sc = ref_after_codesep(stack[-1], codesep)
+        return ("refuse", "no such codeseparator") if sc is None else ("segwit", sc, amount)
+    if _is(script, "p2tr"):
+        return ("refuse", "taproot wrapped in p2sh")
+    sc = ref_after_codesep(script, codesep)
+    return ("refuse", "no such codeseparator") if sc is None else ("legacy", sc)
+
+
+def _o_from_tx_dispatch(w):
+    """Every dispatch decision of from_tx, on the real code alone: from_tx(prevouts, tx, i, ht) must be the
+    single-algorithm function the reference dispatch names, called DIRECTLY with the script code / amount /
+    annex / extension the reference derives from the prevout script, scriptSig and witness stack -- and a
+    refusal where the reference refuses."""
+    t = un_tx(w["tx"])
+    outs_l = un_outs(w["outs"])
+    i, ht, k = w["i"], w["ht"], w.get("codesep", 0)
+    tx = mk_tx(t)
+    outs = [mk_out(o) for o in outs_l]
+    got = _call(sig_hash.from_tx, outs, tx, i, ht, codesep_index=k)
+    d = ref_dispatch(t, outs_l, i, k)
+    if d[0] == "refuse":
+        return got == ("err", "value"), f"reference refuses ({d[1]}); from_tx -> {got}"
+    if d[0] == "taproot":
+        want = _call(sig_hash.taproot, tx, i, outs, ht, int(bool(d[2])), d[1], d[2])
+        how = f"taproot(annex={d[1].hex() or '_'}, ext={'script path' if d[2] else 'key path'})"
+    elif d[0] == "segwit":
+        want = _call(sig_hash.segwit_v0, d[1], tx, i, ht, d[2])
+        how = f"segwit_v0(script_code={d[1].hex()}, amount={d[2]})"
+    else:
+        want = _call(sig_hash.legacy, d[1], tx, i, ht)
+        how = f"legacy(script_code={d[1].hex()})"
+    ok = got == want and (got[0] == "ok" or got[1] == "value")
+    return ok, (f"{w.get('kind', '')}: stack {[x.hex() for x in t['vin'][i][4]]}: from_tx -> {got}, "
+                f"direct {how} -> {want}")
+
+
+def _o_annex_ext(w):
+    """taproot_annex_and_ext against BIP341's text (reference routine), stack by stack."""
+    stack = [unhx(x) for x in w["stack"]]
+    tx = Tx(2, 0, [TxIn(OutPoint(b"\x01" * 32, 0, check_validity=False), b"", 0,
+                        Witness(stack, check_validity=False), check_validity=False)], [], check_validity=False)
+    got = _call(sig_hash.taproot_annex_and_ext, tx, 0)
+    want = ref_annex_and_ext(stack)
+    ok = got == ("err", "value") if want is None else got == ("ok", want)
+    return ok, f"stack {w['stack']}: taproot_annex_and_ext -> {got}, BIP341 says {want}"
+
+
+def _o_redeem(w):
+    """redeem_script against BIP16's text (reference routine)."""
+    ss, spk = unhx(w["ss"]), unhx(w["spk"])
+    got = _call(sig_hash.redeem_script, ss, spk)
+    ops, whole = ref_ops(ss)
+    want = None
+    if whole and ops and ops[-1][1] is not None and _ref_hash160(ops[-1][1]) == spk[2:22]:
+        want = ops[-1][1]
+    ok = got == ("err", "value") if want is None else got == ("ok", want)
+    return ok, f"redeem_script({w['ss']}, {w['spk']}) -> {got}, BIP16 says {want.hex() if want is not None else 'refuse'}"
+
+
 ORACLES = {
     "bip.vectors": _o_bip_vector,
     "precomputed=direct": _o_precomputed,
@@ -584,6 +769,9 @@ ORACLES = {
     "core.sighash.json": _o_core_vector,
     "commitment": _o_commitment,
     "psbtview.history": _o_view_history,
+    "from_tx.dispatch": _o_from_tx_dispatch,
+    "annex_and_ext.bip341": _o_annex_ext,
+    "redeem_script.bip16": _o_redeem,
 }
 
 
@@ -880,27 +1068,95 @@ def g_spend(rng):
 
 def s_from_tx(ctx):
     rng = ctx.rng
-    lines, redeem, annex = [], [], []
+    lines, redeem, annex, lines2 = [], [], [], []
     for _ in range(ctx.n(1200)):
-        t = g_tx(rng, bad=0.02 if rng.random() < 0.2 else 0.0)
+        bad = 0.02 if rng.random() < 0.2 else 0.0
+        t = g_tx(rng, bad=bad)
         n = len(t["vin"])
-        outs = []
+        outs, kinds = [], []
         for j in range(n):
             spk, ss, stack, kind = g_spend(rng)
             a = t["vin"][j]
             t["vin"][j] = (a[0], a[1], ss, a[3], stack)
             outs.append((g_i64(rng), spk))
+            kinds.append(kind)
             ctx.count("from_tx.kinds", kind)
             if kind.startswith("p2sh"):
                 redeem.append(f"redeem {hx(ss)} {hx(spk)}")
+                ctx.check("redeem_script.bip16", {"ss": hx(ss), "spk": hx(spk)})
             if kind.startswith("p2tr"):
                 annex.append("annexext " + ("/".join(hx(w) for w in stack) if stack else "."))
+                ctx.check("annex_and_ext.bip341", {"stack": [hx(w) for w in stack]})
         if rng.random() < 0.05:
             outs = outs[:-1] if rng.random() < 0.5 else outs + [(1, b"")]
         i = g_index(rng, n)
         ht = rng.choice(SEVEN) if rng.random() < 0.7 else g_ht32(rng)
         k = 0 if rng.random() < 0.7 else rng.choice([1, 1, 2, 3, -1])
         lines.append(f"fromtx {tok_outs(outs)} {tok_tx(t)} {i} {ht} {rng.choice(['0', '1'])} {k}")
+        if bad == 0.0 and 0 <= i < n and len(outs) == n:
+            ctx.count("from_tx.dispatch", kinds[i] + (".codesep" if k else ""))
+            ctx.check("from_tx.dispatch", {"kind": kinds[i], "tx": tok_tx(t), "outs": tok_outs(outs), "i": i, "ht": ht,
+                                           "codesep": k})
+    # every dispatch decision, deliberately: taproot stacks of 0..4 elements whose last element does / does not
+    # start with 0x50 (annex) x the seven types; each previous-output type bare and P2SH-wrapped, with and
+    # without a codeseparator index
+    inner = b"\x51\xab\x01\xab\xab\x52"
+    cb = b"\xc0" + bytes(range(32))
+    elems = [bytes(range(64)), inner, cb, b"\x07"]
+    for depth in range(5):
+        for last in (None, b"\x50", b"\x50\x01\x02", b"\x51\x50", b""):
+            stack = elems[:depth]
+            if last is not None:
+                if not stack:
+                    continue
+                stack = stack[:-1] + [last]
+            for ht in SEVEN:
+                t = g_tx(rng, n_in=rng.randrange(1, 4), n_out=3)
+                n = len(t["vin"])
+                i = rng.randrange(n)
+                a = t["vin"][i]
+                t["vin"][i] = (a[0], a[1], b"", a[3], stack)
+                outs = g_prevouts(rng, n)
+                outs[i] = (outs[i][0], b"\x51\x20" + common.rand_bytes(rng, 32))
+                ctx.count("from_tx.dispatch", f"p2tr.depth{depth}." + ("plain" if last is None else "last=" + (hx(last[:1]))))
+                ctx.check("from_tx.dispatch", {"kind": f"p2tr depth {depth}", "tx": tok_tx(t), "outs": tok_outs(outs),
+                                               "i": i, "ht": ht, "codesep": 0})
+                ctx.check("annex_and_ext.bip341", {"stack": [hx(x) for x in stack]})
+                lines2.append(f"fromtx {tok_outs(outs)} {tok_tx(t)} {i} {ht} 0 0")
+    h20 = bytes(range(20))
+    table = [
+        ("p2pkh", b"\x76\xa9\x14" + h20 + b"\x88\xac", b"", []),
+        ("bare+codesep", inner, b"", []),
+        ("p2sh", p2sh(inner), push(b"\x01") + push(inner), []),
+        ("p2sh.nonminimal-push", p2sh(inner), b"\x4d" + len(inner).to_bytes(2, "little") + inner, []),
+        ("p2wpkh", b"\x00\x14" + h20, b"", [b"\x30" * 71, b"\x02" * 33]),
+        ("p2wsh", p2wsh(inner), b"", [b"", inner]),
+        ("p2wsh.empty-stack", p2wsh(inner), b"", []),
+        ("p2sh-p2wpkh", p2sh(b"\x00\x14" + h20), push(b"\x00\x14" + h20), [b"\x30" * 71, b"\x02" * 33]),
+        ("p2sh-p2wsh", p2sh(p2wsh(inner)), push(p2wsh(inner)), [b"", inner]),
+        ("p2sh-p2tr", p2sh(b"\x51\x20" + bytes(32)), push(b"\x51\x20" + bytes(32)), [bytes(64)]),
+        ("p2sh.wrong-hash", p2sh(inner), push(inner + b"\x00"), []),
+        ("p2sh.op-at-end", p2sh(inner), push(inner) + b"\x51", []),
+        ("p2sh.truncated", p2sh(inner), push(inner)[:-1], []),
+        ("p2sh.empty", p2sh(inner), b"", []),
+        ("p2wpkh.21-byte-program", b"\x00\x15" + h20 + b"\x00", b"", [b"\x30", b"\x02"]),
+        ("witness-v1.20-byte-program", b"\x51\x14" + h20, b"", [bytes(64)]),
+    ]
+    for name, spk, ss, stack in table:
+        for k in (0, 1, 2, 3):
+            for ht in (1, 2, 3, 0x81, 0x82, 0x83, 0, 0x1F, 0xFFFFFF03):
+                t = g_tx(rng, n_in=rng.randrange(1, 4), n_out=2)
+                n = len(t["vin"])
+                i = rng.randrange(n)
+                a = t["vin"][i]
+                t["vin"][i] = (a[0], a[1], ss, a[3], stack)
+                outs = g_prevouts(rng, n)
+                outs[i] = (outs[i][0], spk)
+                ctx.count("from_tx.dispatch", name + (".codesep" if k else ""))
+                ctx.check("from_tx.dispatch", {"kind": name, "tx": tok_tx(t), "outs": tok_outs(outs), "i": i, "ht": ht,
+                                               "codesep": k})
+                lines2.append(f"fromtx {tok_outs(outs)} {tok_tx(t)} {i} {ht} 0 {k}")
+    ctx.stream("from_tx.dispatch-table", lines2)
     ctx.stream("from_tx", lines)
     ctx.stream("redeem_script", redeem)
     ctx.stream("taproot_annex_and_ext", annex)
